@@ -110,6 +110,13 @@ func (c *Catalog) tagsFromTagsDirective(d *directive.Directive) ([]*Tag, *jerr.J
 	return tt, nil
 }
 
+// CheckTags checks that every tag named by the Tags directive is declared,
+// whether or not some interaction ends up using this directive.
+func (c *Catalog) CheckTags(d *directive.Directive) *jerr.JApiError {
+	_, je := c.tagsFromTagsDirective(d)
+	return je
+}
+
 func checkTagsDirective(d *directive.Directive) *jerr.JApiError {
 	if d.Annotation != "" {
 		return d.KeywordError(jerr.AnnotationIsForbiddenForTheDirective)
